@@ -412,6 +412,86 @@ fn resize_at_every_fill_level(ctx: &Ctx, rep: &mut Report) {
     }
 }
 
+/// One logical line of every length under every small scrollback limit: a line taller than
+/// the scrollback can hold crosses from the scrollback into the view while it is trimmed.
+/// Lengths 0..=(limit + limit/10 + rows + 6) * cols, limits 0..=24 (thorough 0..=45), four
+/// sizes, after 0 or many short lines, in one call / in pieces of 7 characters / through
+/// feed() and then an empty call; all geometry invariants after every call.
+fn long_lines_under_every_limit(ctx: &Ctx, rep: &mut Report) {
+    use super::common::geometry_broken;
+    use rayon::prelude::*;
+    let max_l = ctx.tier.pick(24usize, 45);
+    let mut cases: Vec<(usize, usize, usize)> = vec![];
+    for l in 0..=max_l {
+        for (si, _) in [(5usize, 3usize), (8, 4), (1, 2), (3, 1)].iter().enumerate() {
+            for pre in [0usize, 40] {
+                cases.push((l, si, pre));
+            }
+        }
+    }
+    let bad: Vec<String> = cases
+        .par_iter()
+        .filter_map(|&(l, si, pre)| {
+            let (cols, rows) = [(5usize, 3usize), (8, 4), (1, 2), (3, 1)][si];
+            let r = crate::engine::guarded(|| {
+                let hard = l + l / 10;
+                let short: String = (0..pre).map(|i| format!("{}\r\n", i % 10)).collect();
+                for n in 0..=(hard + rows + 6) * cols {
+                    let line: String = "abcdefghij".chars().cycle().take(n).collect();
+                    for how in 0..3 {
+                        let mut vt = build_vt(cols, rows, Some(l));
+                        let _ = vt.feed_str(&short);
+                        match how {
+                            0 => {
+                                let _ = vt.feed_str(&line);
+                            }
+                            1 => {
+                                let mut i = 0;
+                                while i < line.len() {
+                                    let j = (i + 7).min(line.len());
+                                    let _ = vt.feed_str(&line[i..j]);
+                                    if let Some(w) = geometry_broken(&vt, (cols, rows)) {
+                                        return Some(format!("a line of {} characters in pieces of 7, after {} of them: {}", n, j, w));
+                                    }
+                                    i = j;
+                                }
+                            }
+                            _ => {
+                                for ch in line.chars() {
+                                    vt.feed(ch);
+                                }
+                                let _ = vt.feed_str("");
+                            }
+                        }
+                        if let Some(w) = geometry_broken(&vt, (cols, rows)) {
+                            return Some(format!("a line of {} characters ({}): {}", n, ["one call", "pieces of 7", "feed() per character, then an empty call"][how], w));
+                        }
+                        let _ = vt.feed_str("\r\nz");
+                        if let Some(w) = geometry_broken(&vt, (cols, rows)) {
+                            return Some(format!("a line of {} characters, then CR LF z: {}", n, w));
+                        }
+                    }
+                }
+                None
+            });
+            match r {
+                Ok(None) => None,
+                Ok(Some(d)) => Some(format!("{}x{}, limit {}, after {} short lines: {}", cols, rows, l, pre, d)),
+                Err(p) => Some(format!("{}x{}, limit {}, after {} short lines: panic: {}", cols, rows, l, pre, p)),
+            }
+        })
+        .collect();
+    let n = cases.len() as u64;
+    rep.evaluations += n * 100;
+    rep.transitions += n * 100;
+    rep.parts.push(serde_json::json!({"part":"long-lines-under-every-limit","max_limit":max_l,"cases":n,"violating":bad.len()}));
+    println!("part long-lines-under-every-limit: {} (limit, size, prefix) cases x every line length, {} violating", n, bad.len());
+    if let Some(d) = bad.first() {
+        emit_violation(ctx, rep, "C02", serde_json::json!({"part":"long-lines-under-every-limit","oracle":"geometry","observed":d}));
+        rep.violations += bad.len() as u64 - 1;
+    }
+}
+
 pub fn run(ctx: &Ctx) -> Report {
     let mut rep = Report::new();
     let (main, deep) = parts!(ctx.tier);
@@ -423,6 +503,7 @@ pub fn run(ctx: &Ctx) -> Report {
     extreme_sizes(ctx, &mut rep);
     every_height_pair(ctx, &mut rep);
     resize_at_every_fill_level(ctx, &mut rep);
+    long_lines_under_every_limit(ctx, &mut rep);
     rep.rule = "BFS over op histories from power-on, dedup on the Debug fingerprint of the whole Vt; every transition is one public call (feed_str with drained/dropped Changes, feed per char, resize) after which all C02 invariants are evaluated; distinct = distinct implementation states; extreme-sizes: geometries at and beyond the 16-bit boundary through resize() and the builder, invariants after every call".into();
     rep.assumptions = vec![
         "screens limited to the configured tiny sizes and resize targets".into(),
@@ -439,11 +520,12 @@ pub fn replay(ctx: &Ctx, v: &Value) -> bool {
         return rep.violations > 0;
     }
     let tier = if v["tier"] == "thorough" { Tier::Thorough } else { Tier::Quick };
-    if v["part"] == "every-height-pair" || v["part"] == "resize-at-every-fill-level" {
+    if v["part"] == "every-height-pair" || v["part"] == "resize-at-every-fill-level" || v["part"] == "long-lines-under-every-limit" {
         let mut rep = Report::new();
         let c2 = Ctx { id: ctx.id.clone(), tier, seed: 0, start: ctx.start, known: ctx.known.clone(), replay_dir: ctx.replay_dir.clone() };
         every_height_pair(&c2, &mut rep);
         resize_at_every_fill_level(&c2, &mut rep);
+        long_lines_under_every_limit(&c2, &mut rep);
         return rep.violations > 0;
     }
     let (main, deep) = parts!(tier);
